@@ -2,6 +2,7 @@ package props
 
 import (
 	"fmt"
+	json "github.com/goccy/go-json"
 	"reflect"
 	"sort"
 
@@ -33,6 +34,7 @@ func encSpace(c *work.Ctx, types []reflect.Type, D int, opts *universe.ValOpts, 
 			if !c.BeginS(id) {
 				return
 			}
+			encPrologue()
 			check(t, v, id)
 			c.EndCase()
 		})
@@ -108,4 +110,26 @@ func blame(v reflect.Value, fails func(v reflect.Value) bool, memo map[string]bo
 // sig is the class signature of a blame node.
 func sig(v reflect.Value) string {
 	return universe.Desc(v.Type(), 2) + " @ " + universe.DescVal(v, 2)
+}
+
+// encPrologue: every case of the encoder space runs on pooled state that has just served calls with OTHER
+// settings — an indenting encode with a non-white-space prefix and indent over marshalers at depths 0..3 (what a
+// context remembers about prefixes must not reach the next call), a coloured one, an unordered one, a failing one.
+type encProM struct{ N int }
+
+func (m encProM) MarshalJSON() ([]byte, error) { return []byte(`{"m":[1,{"k":2}]}`), nil }
+
+type encProFail struct{}
+
+func (encProFail) MarshalJSON() ([]byte, error) { return nil, fmt.Errorf("prologue marshaler fails") }
+
+var encProValue = []interface{}{encProM{}, []interface{}{encProM{}, map[string]interface{}{"a": encProM{}, "b": []encProM{{1}}}}, struct{ F encProM }{}}
+
+func encPrologue() {
+	defer func() { _ = recover() }()
+	_, _ = json.MarshalIndent(encProM{}, "//", "##")
+	_, _ = json.MarshalIndent(encProValue, "//", "##")
+	_, _ = json.MarshalIndentWithOption(encProValue, "<", ">", json.Colorize(json.DefaultColorScheme), json.UnorderedMap())
+	_, _ = json.MarshalWithOption(encProValue, json.Colorize(json.DefaultColorScheme), json.DisableHTMLEscape(), json.DisableNormalizeUTF8())
+	_, _ = json.MarshalIndent([]interface{}{encProValue, encProFail{}}, "!!", "??")
 }
